@@ -152,7 +152,8 @@ QScenario(a, b) ==
                         <<row2[1].v, row2[2].v, row2[3].v, row2[4].v, row2[5].v>> >>] >>]
 
 VARIABLE p
-Init == p \in {[k |-> "Q", a |-> a, b |-> b] : a \in DOMAIN QV, b \in DOMAIN QV} \cup {[k |-> "F", h |-> h, m |-> m] : h \in FSeqs(3), m \in {"w+", "wb+"}} \cup {[k |-> "C", r |-> r, f |-> f] : r \in Rows, f \in {"\",\"", "\";\""}} \cup {[k |-> "U", w |-> w] : w \in Words(3, Len(Chars))} \cup {[k |-> "UB", w |-> w] : w \in {x \in Words(2, Len(Chars) + Len(BadChars)) : \E j \in DOMAIN x : x[j] > Len(Chars)}}
+Thorough == Env("VERIF_TIER", "quick") = "thorough"
+Init == p \in {[k |-> "Q", a |-> a, b |-> b] : a \in DOMAIN QV, b \in DOMAIN QV} \cup {[k |-> "F", h |-> h, m |-> m] : h \in FSeqs(IF Thorough THEN 4 ELSE 3), m \in {"w+", "wb+"}} \cup {[k |-> "C", r |-> r, f |-> f] : r \in Rows, f \in {"\",\"", "\";\""}} \cup {[k |-> "U", w |-> w] : w \in Words(IF Thorough THEN 4 ELSE 3, Len(Chars))} \cup {[k |-> "UB", w |-> w] : w \in {x \in Words(IF Thorough THEN 3 ELSE 2, Len(Chars) + Len(BadChars)) : \E j \in DOMAIN x : x[j] > Len(Chars)}}
 Next == UNCHANGED p
 Emit == PrintT("@@S " \o ToJson(IF p.k = "U" THEN UScenario(p.w) ELSE IF p.k = "C" THEN CScenario(p.r, p.f) ELSE IF p.k = "F" THEN FScenario(p.h, p.m) ELSE IF p.k = "Q" THEN QScenario(p.a, p.b) ELSE UBadScenario(p.w)))
 =============================================================================
